@@ -419,14 +419,30 @@ func execTdel(line string, w []string) string {
 			}
 			sched := tdCfg{alt: elPeriod, bn: bn, init: elInitMs * 1000000, period: elPeriod, pn: pn, term: elPeriod}
 			want, inSlot := sched.spec(ts)
+			entitled := decodable && pos < int64(len(set)) && set[pos] == prop
+			// known finding: the block's term is over and the code elects anew from the tip instead of looking that term's
+			// proposers up.  Only that behaviour - the accepted proposer is the one a fresh election names - goes under the
+			// known key, whatever the term's own records are like.
+			knownBackdated := false
+			if backdated && !entitled {
+				fresh, dec := init, true
+				if tip >= start+3 {
+					fresh, dec = elSpec(recAt(snaps, tip-3), init, pn)
+				}
+				knownBackdated = dec && pos < int64(len(fresh)) && fresh[pos] == prop
+			}
 			switch {
 			case !inSlot || want != [3]int64{term, pos, bp}:
 				out.Violate(xvlib.Violation{Key: "tdpos-accept-outside-slot", What: fmt.Sprintf("tdpos CheckMinerMatch accepted a block whose timestamp %d the schedule maps to %v (in slot: %v), not to (%d,%d,%d)", ts, want, inSlot, term, pos, bp),
 					Ops: []string{line}, Impl: []string{"accept"}})
+			case entitled:
+			case knownBackdated:
+				out.Violate(xvlib.Violation{Key: "tdpos-accept-backdated-term", What: fmt.Sprintf("tdpos CheckMinerMatch accepted a block of address #%d stamped in slot (term %d, pos %d) of a term that is over (tip term %d): it is the proposer a fresh election from the tip names, not the one that term was opened with (snapshot of block %d: %v, decodable %v)",
+					prop, term, pos, terms[tip], F-4, set, decodable), Ops: []string{line}, Impl: []string{"accept"}})
 			case !decodable:
 				out.Violate(xvlib.Violation{Key: "tdpos-accept-undecodable-election", What: fmt.Sprintf("tdpos CheckMinerMatch accepted a block of term %d although an election record of the snapshot of block %d, under which the term was opened, does not decode: the chain's state names no proposers", term, F-4),
 					Ops: []string{line}, Impl: []string{"accept"}})
-			case pos >= int64(len(set)) || set[pos] != prop:
+			default:
 				who := "nobody"
 				if pos < int64(len(set)) {
 					who = fmt.Sprintf("address #%d", set[pos])
@@ -434,17 +450,6 @@ func execTdel(line string, w []string) string {
 				key := "tdpos-accept-not-elected"
 				if fault != "-" {
 					key = "tdpos-accept-not-elected-under-read-fault"
-				}
-				if backdated {
-					// known finding: the block's term is over and the code elects anew from the tip instead of looking that
-					// term's proposers up.  Only that behaviour goes under the known key.
-					fresh, dec := init, true
-					if tip >= start+3 {
-						fresh, dec = elSpec(recAt(snaps, tip-3), init, pn)
-					}
-					if dec && pos < int64(len(fresh)) && fresh[pos] == prop {
-						key = "tdpos-accept-backdated-term"
-					}
 				}
 				out.Violate(xvlib.Violation{Key: key, What: fmt.Sprintf("tdpos CheckMinerMatch accepted a block of address #%d for slot (term %d, pos %d): the proposers elected for that term (snapshot of block %d, storage fault during the check: %q) are %v, the slot belongs to %s",
 					prop, term, pos, F-4, fault, set, who), Ops: []string{line}, Impl: []string{"accept"}})
